@@ -9,7 +9,7 @@ mkdir -p /tmp/seedrun; rm -rf $sc; git -C /repo worktree remove --force $wt >/de
 git -C /repo worktree add --detach $wt HEAD >/dev/null 2>&1 || { echo "cannot create worktree"; exit 2; }
 git -C $wt apply $d/patch.diff || { git -C /repo worktree remove --force $wt; exit 2; }
 for p in "$@"; do
-  out=$(cd /verif && VERIF_REPO=$wt VERIF_SCRATCH=$sc ./check $p ${TIER:-quick} 2>&1); rc=$?
+  out=$(cd "$(dirname "$0")/.." && VERIF_REPO=$wt VERIF_SCRATCH=$sc ./check $p ${TIER:-quick} 2>&1); rc=$?
   echo "$out" | grep -E "^VIOLATION|^INCONCLUSIVE|^KNOWN|^property=" | cut -c1-260 | head -6
   echo "SEED $name check=$p exit=$rc"
 done
